@@ -911,7 +911,15 @@ class Gen:
                 opts = it[4] if len(it) > 4 else {}
                 hdr = opts.get("header") or ("impl %s {" % it[2] if not opts.get("trait") else "impl %s for %s {" % (opts["trait"], it[2]))
                 self.emit(hdr)
-                for fnname in it[3]:
+                fnlist = list(it[3])
+                if "*" in fnlist:
+                    # whole impl block: every fn found in it on THIS run (a method added by an edit is extracted too - without a
+                    # contract of its own, but the preconditions of whatever it calls are still owed)
+                    found = self.src(it[1]).impl_fn_names(it[2], opts.get("trait"))
+                    fnlist = [x for x in fnlist if x != "*"] + [x for x in found if x not in fnlist]
+                    self.fidelity.append(dict(rule="whole-impl", file=self.src(it[1]).path, line=0, item=it[2], before="impl %s { * }" % it[2],
+                                              after="functions extracted on this run: " + ", ".join(fnlist), trusted="nothing"))
+                for fnname in fnlist:
                     if fnname.endswith("?"):
                         # optional member: a small helper that an edit may rename or dissolve. If it is gone, its contract goes
                         # with it (recorded in the fidelity log) and whatever replaced it is inlined / pulled in where it is called
